@@ -105,6 +105,14 @@ CLAIMED = {
     note="PARTIAL: that jax.random.normal is standard normal and depends only on (key, shape, dtype) is an oracle assumption. Trusted: as C01.",
     technique="Coq proof (matmul denotation + solve inverse) + tolerance correspondence with the PRNG as oracle",
     ref="DESIGN.md section 6, C12"),
+ "C13": dict(
+    text="Machine-checked (any field, any batch sizes, c right-hand-side columns): conditioning on batch 1 then batch 2 gives the same predictive mean/covariance as conditioning once "
+         "on both (Schur-complement elimination, block-free statement), the quadratic forms add and det S = det S11 det S22|1 (so total log probabilities agree), and the conditioned "
+         "kernel k - K1^T K2 equals k - k(X,x)^T S^-1 k(X,x'). 2- and 3-step histories are run on the implementation (child evaluated, sampled, re-conditioned at own and new inputs; both solvers; "
+         "include_mean both ways) against a dense numpy oracle and the implementation's own joint call; the child's kernel/mean objects are tied to their Gallina model by correspondence.",
+    note="Trusted: Coq kernel, harness, numpy oracle. Histories of arbitrary length follow by iterating the two-step theorem; that induction is not yet a Coq theorem (DESIGN.md).",
+    technique="Coq proof (Schur complement algebra, block determinant) + history execution against oracle",
+    ref="DESIGN.md section 6, C13"),
 }
 NOT_YET = {}
 
